@@ -157,7 +157,7 @@ def run_case(ctx, case):
         if cases_l is None:
             return runner_like.run_combos(gens.spell_combos(combos, "dict"), verbosity=0, **kw) if hasattr(runner_like, "run_combos") \
                 else runner_like.harvest_combos(gens.spell_combos(combos, "dict"), verbosity=0, **kw)
-        sub = tuple((a, list(v)) for a, v in combos) if combos else None
+        sub = {a: list(v) for a, v in combos} if combos else None        # (the sub-grid as a mapping, as documented)
         extra = {"combos": sub} if sub else {}
         if hasattr(runner_like, "run_cases"):
             return runner_like.run_cases(cases_l, verbosity=0, **extra, **kw)
@@ -184,7 +184,7 @@ def run_case(ctx, case):
                             half = [(a, v[:max(1, len(v) // 2)]) for a, v in combos]
                             ph.harvest_combos(dict(half), verbosity=0)
                         else:
-                            sub = tuple((a, list(v)) for a, v in combos) if combos else None
+                            sub = {a: list(v) for a, v in combos} if combos else None
                             ph.harvest_cases(cases_l[:max(1, len(cases_l) // 2)], verbosity=0, **({"combos": sub} if sub else {}))
                         if ph._full_ds is not None:
                             ph._full_ds.close()
